@@ -142,7 +142,7 @@ def correspond(ctx, proof_ok=True):
     if not ok:
         raise RuntimeError('C08/Model.v does not build:\n' + log[-2000:])
     rng = ctx.rng
-    ncases = ctx.n(150, 3000)
+    ncases = ctx.n(150, 1500)
     calls = [gen_call(rng, i) for i in range(ncases)]
     nb = 8
     outs = C.run_impl_parallel('c08_impl.py', [calls[i::nb] for i in range(nb)])
